@@ -9,7 +9,9 @@ CONSTANTS
   MemoBug = TRUE
   SharedOutBug = FALSE
   InPlaceBug = FALSE
+  LazyCtorBug = FALSE
 VIEW View
 INVARIANT ResultFromCurrentContent
 INVARIANT ResultsStable
+INVARIANT BuiltFromCtorValue
 PROPERTY ArgsUntouched
